@@ -28,36 +28,29 @@ func init() { hlib.Register("C02", c02) }
 
 // ---- Coq printers -------------------------------------------------------------------------
 
-// c02hex prints bytes as (x "hex"); long strings are split so that no Coq string literal
-// (a term as deep as it is long) exceeds 4096 bytes.
+// c02hex prints a byte string as (xb len [i1; i2; ...]%uint63): big-endian groups of 7 bytes,
+// each one primitive-integer literal (a cases file of string or N literals is an order of
+// magnitude slower to parse and type-check).
 func c02hex(b []byte) string {
-	const seg = 4096
-	if len(b) <= seg {
-		return `(x "` + hex.EncodeToString(b) + `")`
+	if len(b) == 0 {
+		return "(xb 0 [])"
 	}
-	var parts []string
-	for off := 0; off < len(b); off += seg {
-		end := off + seg
+	parts := make([]string, 0, len(b)/7+1)
+	for off := 0; off < len(b); off += 7 {
+		end := off + 7
 		if end > len(b) {
 			end = len(b)
 		}
-		parts = append(parts, `x "`+hex.EncodeToString(b[off:end])+`"`)
+		var v uint64
+		for _, c := range b[off:end] {
+			v = v<<8 | uint64(c)
+		}
+		parts = append(parts, strconv.FormatUint(v, 10))
 	}
-	return "(" + strings.Join(parts, " ++ ") + ")"
+	return "(xb " + strconv.Itoa(len(b)) + " [" + strings.Join(parts, "; ") + "]%uint63)"
 }
 
-// c02str prints an ASCII string as (s "...") when it is safe to do so, else as bytes.
-func c02str(t string) string {
-	if len(t) > 4000 {
-		return c02hex([]byte(t))
-	}
-	for i := 0; i < len(t); i++ {
-		if t[i] < 32 || t[i] > 126 {
-			return c02hex([]byte(t))
-		}
-	}
-	return `(s "` + strings.ReplaceAll(t, `"`, `""`) + `")`
-}
+func c02str(t string) string { return c02hex([]byte(t)) }
 
 // c02rel prints an answer relative to a reference answer: SErr, SSame or SDiff.
 func c02rel(o, ref string) string {
@@ -82,11 +75,14 @@ func c02zs(xs []int64) string {
 }
 
 func c02us(xs []uint32) string {
+	if len(xs) == 0 {
+		return "[]"
+	}
 	s := make([]string, len(xs))
 	for i, v := range xs {
 		s[i] = strconv.FormatUint(uint64(v), 10)
 	}
-	return hlib.List(s)
+	return "(ns " + hlib.List(s) + "%uint63)"
 }
 
 // c02obs projects a MetaInfo onto the observables the model computes.
